@@ -341,11 +341,12 @@ endpoint_path!(c20_endpoint_confined_len1, 1, 4, true, "/c/api/ribbit", "accepte
 endpoint_path!(c20_kf_endpoint_namespace_len2, 2, 5, true, "/c/api/ribbit", "accepted endpoint leaves cache_dir/api/ribbit");
 // @end
 // @family prop=C20 tier=thorough timeout=3300 mem=24 role=endpoint-confined-longer
-// @bounds as c20_endpoint_confined_len1 for 3 and 5 symbolic ASCII bytes (len3: 389 s; len5: solver out of memory at 16 GB in the quick tier, not re-measured at 24 GB; 8 symbolic bytes: symex out of memory -- the fixed validate_endpoint splits with CharSearcher/memchr/memcmp, whose nested loops are unrolled to the bound for symbolic content)
+// @bounds as c20_endpoint_confined_len1 for 3 symbolic ASCII bytes (len3: 389 s; len5: solver out of memory at 16 GB and at 24 GB after 2087 s: un-registered; 8 symbolic bytes: symex out of memory -- the fixed validate_endpoint splits with CharSearcher/memchr/memcmp, whose nested loops are unrolled to the bound for symbolic content)
 // @encodes cascette_protocol::client::validate_endpoint
 // @assumes as c20_endpoint_confined_len1
 endpoint_path!(c20_endpoint_confined_len3, 3, 6, true, "/c/api/ribbit", "accepted endpoint leaves cache_dir/api/ribbit");
-endpoint_path!(c20_endpoint_confined_len5, 5, 8, true, "/c/api/ribbit", "accepted endpoint leaves cache_dir/api/ribbit");
+// (len5 un-registered: measured OOM at 24 GB after 2087 s in the thorough tier)
+// endpoint_path!(c20_endpoint_confined_len5, 5, 8, true, "/c/api/ribbit", "accepted endpoint leaves cache_dir/api/ribbit");
 // @end
 
 fn endpoint_oracle(b: &[u8]) -> bool {
